@@ -430,9 +430,9 @@ Print Assumptions C09_shared_names_read_only.
 Theorem C09_shared_result_heap_varies_refuted :
   frozen_ok vary_setup vary_bodies = true /\
   exists p1 p2 s1 s2,
-    run_py_seq vary_setup [[LAssignRet 2 0]] = POk p1 /\ run_py_seq vary_setup vary_bodies = POk p2 /\
+    run_py_seq vary_setup [[LAssignRet 2 0]%Z] = POk p1 /\ run_py_seq vary_setup vary_bodies = POk p2 /\
     p_live p1 = p_live p2 /\
-    run_fw_seq vary_setup [[LAssignRet 2 0]] = Safe s1 /\ run_fw_seq vary_setup vary_bodies = Safe s2 /\
+    run_fw_seq vary_setup [[LAssignRet 2 0]%Z] = Safe s1 /\ run_fw_seq vary_setup vary_bodies = Safe s2 /\
     f_live_cells s1 = 8 /\ f_live_cells s2 = 7.
 Proof. exact share_multiplicity. Qed.
 Print Assumptions C09_shared_result_heap_varies_refuted.
